@@ -15,7 +15,7 @@ def gen_vectors(chk, maxframes):
 def run(chk, replay=None):
     chk.rule = ("cases = message shapes (frame-length lists) enumerated by TLC over the grid {0,1,2,254,255,256,257,65535,65536,1 MiB,4 MiB} "
                 "plus seeded random messages (1-8 frames, lengths up to several MiB) encoded by the real codec, plus greeting/READY written by each of "
-                "the 9 socket types x identity {none,1 B,255 B}; the parse of the produced bytes is validated by TLC against spec/Zmtp.tla (TraceWire); "
+                "the 9 socket types x identity lengths (every length 1..255 for three types, boundary lengths for the rest; thorough: every length for every type); the parse of the produced bytes is validated by TLC against spec/Zmtp.tla (TraceWire); "
                 "distinct = distinct shapes; non-trivial = at least one frame")
     chk.assumptions = ["body content equality and the library's decode of its own bytes are byte compares in the harness", "TLC and CommunityModules are correct"]
     thorough = chk.tier == "thorough"
@@ -35,7 +35,7 @@ def run(chk, replay=None):
             vectors += [{"lens": list(t)} for t in tri[:40]]
     inp = os.path.join(chk.wd, "c01.in"); out = os.path.join(chk.wd, "c01.trace")
     vlib.write_ndjson(inp, vectors)
-    rc, o, dt = vlib.sh([vlib.ZV, "c01", "--in", inp, "--out", out, "--seed", str(chk.seed), "--random", "2000" if thorough else "250"], timeout=1800)
+    rc, o, dt = vlib.sh([vlib.ZV, "c01", "--in", inp, "--out", out, "--seed", str(chk.seed), "--random", "2000" if thorough else "250"] + (["--all-idents"] if thorough else []), timeout=1800)
     if rc != 0:
         chk.violation("C01/abort", {"what": "codec driver died", "out": o[-400:]}, {"vectors": inp})
         return
